@@ -49,7 +49,7 @@ def main():
             return 1
         rc, out = sh("go build ./... ", cwd=wt)
         res["builds"] = rc == 0
-        rc, out = sh("flock /tmp/xmpp-gotest.lock go test -vet=off -count=1 ./... 2>&1 | tail -5", cwd=wt)
+        rc, out = sh("flock /tmp/xmpp-gotest.lock go test -vet=off -count=1 ./... 2>&1 | tail -5", cwd=wt, timeout=3600)
         res["suite_passes_with_patch"] = "FAIL" not in out and "ok" in out
         res["suite_output"] = out[-400:]
         # demonstration
@@ -74,10 +74,11 @@ def main():
                 name = "zz_seed_" + (d if d.endswith("_test.go") else d[:-3] + "_test.go")
                 shutil.copy(os.path.join(src, d), os.path.join(wt, pkgdir, name))
                 tests = re.findall(r"^func (Test\w+)\(", txt, flags=re.M)
-                cmd = "flock /tmp/xmpp-gotest.lock go test -vet=off -count=1 -run '^(%s)$' ./%s" % ("|".join(tests), pkgdir or ".")
-            rc1, o1 = sh(cmd, cwd=wt, timeout=600)
+                # only the demonstration's own tests run (they use ports of their own), so the suite lock is not needed
+                cmd = "go test -vet=off -count=1 -run '^(%s)$' ./%s" % ("|".join(tests), pkgdir or ".")
+            rc1, o1 = sh(cmd, cwd=wt, timeout=1500)
             sh("git apply -R %s" % patch, cwd=wt)  # without the patch (never git stash: the stash is shared by all worktrees)
-            rc0, o0 = sh(cmd, cwd=wt, timeout=600)
+            rc0, o0 = sh(cmd, cwd=wt, timeout=1500)
             sh("git apply %s" % patch, cwd=wt)
             demo_res[d] = {"fails_with_patch": rc1 != 0, "passes_without": rc0 == 0, "cmd": cmd,
                            "with_tail": o1[-300:], "without_tail": o0[-300:]}
